@@ -185,4 +185,53 @@ RECIPES = {
              "all read accessors called on a returned log; non-trivial = damage cases opened",
         nontrivial_stat="damage_cases",
     ),
+    "C11": dict(
+        level="fault_enumeration",
+        monitors={"C11"},
+        mc=[],
+        runs=[dict(cmd="fault", gen="small:16,gc-heavy:10,big:4,many-queues:3,aim-gc:6", policy="always_flush",
+                   opts={}, opts_thorough={"all-kinds": True}, thorough_factor=6)],
+        rule="closed images spanning 1-4 WAL files x every listing / open / read / seek call recovery makes on them (counted "
+             "by a fault-free run) x {transient, persistent} x error kinds; open must return Err(IoError) within the "
+             "deadline; non-trivial = injected faults that struck",
+        nontrivial_stat="fault_struck",
+    ),
+    "C17": dict(
+        level="exploration",
+        monitors={"C17"},
+        mc=[],
+        runs=[dict(cmd="names", gen="gc-heavy:30,big:6,aim-gc:10,aim-roll:10", policy="always_flush", thorough_factor=10)],
+        rule="(a) ~330 near-miss names (every single-byte edit of a valid name, other lengths, non-ASCII digits, invalid "
+             "UTF-8, the u64 boundary) x {regular file, directory, symlink to a valid WAL file} next to one valid WAL "
+             "file: listed as WAL iff IsWalName and regular file (decided by TLC), untouched otherwise; (b) histories with "
+             "roll-over and GC in directories pre-populated with WAL files 3,7,8 and foreign entries: created = last+1, "
+             "removed oldest first, only tracked numbers opened/removed, foreign entries unchanged, numeric replay order; "
+             "non-trivial = name cases + histories",
+        nontrivial_stat="name_cases",
+    ),
+    "C07": dict(
+        level="model_checking",
+        monitors={"C07"},
+        mc=[MC_FRAMES, MC_FRAMES_REAL],
+        runs=[dict(cmd="frames", opts={"cases": "6000"}, opts_thorough={"sweep": True}),
+              dict(cmd="run", gen="aim-block:60,boundary:40,big:10", policy="always_flush", monitors={"C01", "C05", "C15"})],
+        rule="record layer in memory: the real RecordWriter over a logging block writer and the real RecordReader, start "
+             "cursors at every boundary class (thorough: all 32768 in-block offsets) x 1-3 entry lengths chosen relative to "
+             "the cursor (0, 1, fills the frame exactly, +-1, one and two more blocks, > 1 file, ~300 KB): layout compared "
+             "with Frames!FlatAll at the real constants by TLC, read-back compared with what was written; through files: "
+             "cursor-aimed scripts with restarts judged by the restart / conformance monitors; non-trivial = cases",
+        nontrivial_stat="frame_cases",
+    ),
+    "C18": dict(
+        level="model_checking",
+        monitors={"C18"},
+        mc=[MC_QM],
+        runs=[dict(cmd="pair", gen="gc-heavy:16,many-queues:6,small:20,idle:10,aim-gc:30,aim-roll:10,recreate:10", policy="always_flush",
+                   opts={"crash": True, "max-points": "40"}, opts_thorough={"crash": True, "max-points": "400"}, thorough_factor=10)],
+        rule="for every script and every queue q: the full run and its projection onto q (restarts kept) agree on every "
+             "result of a call addressed to q and on q's content after each such call and each restart; crash variant: "
+             "process-crash images of the full run between calls and inside calls addressed to other queues recover q as "
+             "the projection has it; non-trivial = (script, queue) pairs with traffic on other queues",
+        nontrivial_stat="pairs_with_other_traffic",
+    ),
 }
